@@ -735,16 +735,11 @@ class Evaluator(object):
                 if isinstance(el, ast.Starred):
                     sub = ('unknown', 'starred-unpack')
                     el = el.value
-                elif value[0] in ('tuple', 'list') and len(value[1]) == n \
-                        and not any(x[0] == 'star' for x in value[1]):
-                    sub = value[1][i]
-                elif value[0] == 'phi' and all(x[0] in ('tuple', 'list') and len(x[1]) == n for x in value[1]):
-                    sub = mkphi([x[1][i] for x in value[1]])
-                elif value[0] == 'ifexp' and all(x[0] in ('tuple', 'list') and len(x[1]) == n and not any(y[0] == 'star' for y in x[1]) for x in value[2:4]):
-                    # `a, b = (p, q) if c else (r, s)`: each target is the conditional of the corresponding components
-                    sub = value[2][1][i] if value[2][1][i] == value[3][1][i] else ('ifexp', value[1], value[2][1][i], value[3][1][i])
                 else:
-                    sub = ('item', value, i)
+                    # (`a, b = (p, q) if c else (r, s)`: each target is the conditional of the corresponding components; likewise through merged alternatives)
+                    sub = self._component(value, i, n)
+                    if sub is None:
+                        sub = ('item', value, i)
                 new = []
                 for s in states:
                     new.extend(self.assign_target(el, sub, s, node))
@@ -1011,6 +1006,23 @@ class Evaluator(object):
         return out
 
     @staticmethod
+    def _component(value, i, n):
+        """i-th of the n components of a value that is a tuple / list display, or alternatives (phi, conditional expression) of such; None otherwise"""
+        if value[0] in ('tuple', 'list'):
+            if len(value[1]) == n and not any(x[0] == 'star' for x in value[1]):
+                return value[1][i]
+            return None
+        if value[0] == 'phi':
+            parts = [Evaluator._component(x, i, n) for x in value[1]]
+            return None if any(p_ is None for p_ in parts) else mkphi(parts)
+        if value[0] == 'ifexp':
+            a, b = Evaluator._component(value[2], i, n), Evaluator._component(value[3], i, n)
+            if a is None or b is None:
+                return None
+            return a if a == b else ('ifexp', value[1], a, b)
+        return None
+
+    @staticmethod
     def _literal_items(t):
         """items of a sequence whose content is known: a list / tuple display, possibly grown by append / insert(<constant>) / extend(<display>) / `+`"""
         if t[0] in ('tuple', 'list'):
@@ -1247,7 +1259,7 @@ class Evaluator(object):
         cache[name] = None           # (cycles)
         expr = vals[0]
         ok_nodes = (ast.Tuple, ast.List, ast.Dict, ast.Set, ast.Constant, ast.Lambda, ast.Name, ast.Attribute, ast.Load, ast.arguments, ast.arg, ast.Call, ast.keyword,
-                    ast.Compare, ast.BoolOp, ast.UnaryOp, ast.BinOp, ast.IfExp, ast.Subscript, ast.Starred, ast.cmpop, ast.boolop, ast.unaryop, ast.operator, ast.expr_context)
+                    ast.Compare, ast.BoolOp, ast.UnaryOp, ast.BinOp, ast.IfExp, ast.Subscript, ast.Starred, ast.cmpop, ast.boolop, ast.unaryop, ast.operator, ast.expr_context, ast.ListComp, ast.GeneratorExp, ast.SetComp, ast.DictComp, ast.comprehension, ast.Slice, ast.JoinedStr, ast.FormattedValue)
         if not all(isinstance(n, ok_nodes) for n in ast.walk(expr)):
             return None
         try:
@@ -1306,7 +1318,15 @@ class Evaluator(object):
         return [(('tuple', ts), s) for ts, s in self.ev_seq(node.elts, st)]
 
     def ex_List(self, node, st):
-        return [(('list', ts), s) for ts, s in self.ev_seq(node.elts, st)]
+        def canon(ts):
+            # `[a, b, *rest]` reads as `[a, b] + rest`, `[*first, z]` as `first + [z]` (one term for both spellings of "a list with something in front / behind")
+            stars = [i for i, t in enumerate(ts) if t[0] == 'star']
+            if len(ts) >= 2 and stars == [len(ts) - 1]:
+                return self._mkbinop('+', ('list', tuple(ts[:-1])), ts[-1][1])
+            if len(ts) >= 2 and stars == [0]:
+                return self._mkbinop('+', ts[0][1], ('list', tuple(ts[1:])))
+            return ('list', ts)
+        return [(canon(ts), s) for ts, s in self.ev_seq(node.elts, st)]
 
     def ex_Set(self, node, st):
         return [(('set', ts), s) for ts, s in self.ev_seq(node.elts, st)]
@@ -1477,7 +1497,26 @@ class Evaluator(object):
     # comprehensions ---------------------------------------------------------
     def _comp(self, node, kind, elts, st):
         # (a comprehension is one expression: whatever is evaluated inside it - inlined helpers included - is merged, never forked)
-        if kind in ('list', 'gen') and len(elts) == 1 and self._calls_new_helper([elts[0]] + [c for g in node.generators for c in g.ifs], st):
+        if self.mode != 'join' and kind in ('list', 'gen') and len(elts) == 1 and self._calls_new_helper([elts[0]] + [c for g in node.generators for c in g.ifs], st):
+            # a helper whose returning paths make one conditional value (`if c: return a` / `return b`) leaves the comprehension a comprehension
+            before = getattr(self, '_phi_merges', 0)
+            saved_mode, saved_paths = self.mode, list(self.paths)
+            self.mode = 'join'
+            try:
+                trial = self._comp_inner(node, kind, elts, st.fork())
+            except AnalysisError:
+                trial = None
+            finally:
+                self.mode = saved_mode
+            if trial is not None and getattr(self, '_phi_merges', 0) == before and len(self.paths) == len(saved_paths) and len(trial) == 1 \
+                    and trial[0][0][0] == 'comp':
+                comp = trial[0][0]
+                outside = set(x for g in comp[3] for x in T.subterms(g[1]) if x[0] == 'phi')
+                inside = set(x for part in (comp[2],) + tuple(c for g in comp[3] for c in g[2]) for x in T.subterms(part) if x[0] == 'phi')
+                if inside <= outside:
+                    return trial
+            self.paths[:] = saved_paths
+            self._phi_merges = before
             # the element goes through a helper that will be evaluated in place: read the comprehension as the accumulating loop it stands for, so that the
             # helper's branches keep their guards (a comprehension term would merge them)
             acc = '_cacc%d' % self._depth
@@ -1747,6 +1786,20 @@ class Evaluator(object):
         # beta-reduce immediately applied lambdas
         if f[0] == 'lambda' and len(call[2]) == f[1] and not call[3]:
             body = subst_bv(f[2], f[3], call[2])
+            # the calls made by the body happen now (they were not recorded when the lambda was built): inner ones first
+            made = []
+            stack = [body]
+            while stack:
+                x = stack.pop()
+                if not isinstance(x, tuple) or not x:
+                    continue
+                if isinstance(x[0], str) and x[0] in ('lambda', 'const'):
+                    continue
+                if x[0] == 'call':
+                    made.append(x)
+                stack.extend(y for y in x[1:] if isinstance(y, tuple))
+            for x in reversed(made):
+                self.emit(st, 'call', x, node=node)
             return [(body, st)]
         if f[0] == 'partial':
             merged = dict(f[3])
@@ -1767,6 +1820,17 @@ class Evaluator(object):
                 alts.append(self._do_call(('call', branch, call[2], call[3]), node, st)[0][0])
             st.guards = saved
             return [(('ifexp', f[1], alts[0], alts[1]), st)]
+        # a callee that is one of several functions (picked from a dispatch table in a merged loop): the call is made on each of them
+        if f[0] == 'phi' and 2 <= len(f[1]) <= 4 and all(x[0] in ('name', 'localfn', 'lambda', 'attr') for x in f[1]):
+            res = []
+            caller_env = st.env
+            for branch in f[1]:
+                r = self._do_call(('call', branch, call[2], call[3]), node, st)
+                if r:                                   # (an alternative that always raises contributes no value)
+                    res.append(mkphi([x for x, _ in r]))
+                    st = r[-1][1]
+                st.env = caller_env
+            return [(mkphi(res), st)] if res else []
         target = None
         if f[0] == 'localfn':
             target = self.P.functions.get(f[1])
@@ -1858,6 +1922,9 @@ class Evaluator(object):
             env = e2
         st.env = env
         base_events = len(st.events)
+        entry_guards = tuple(st.guards)
+        nguards = len(entry_guards)
+        nloops = len(st.loops)
         self.emit(st, 'enter', call, fi.qualname, node=node)
         outs = sub.exec_block(fi.node.body, st)
         results = []
@@ -1872,13 +1939,55 @@ class Evaluator(object):
         self._check_budget()
         if self.mode == 'join' and len(results) > 1:
             base = 0
-            vals = mkphi([r for r, _ in results])
+            ordered = results[len(outs):] + results[:len(outs)]          # (program order: falling off the end comes last)
+            vals = self._decision_value([(tuple(s_.guards[nguards:]), r) for r, s_ in ordered]) \
+                if all(tuple(s_.guards[:nguards]) == entry_guards and not s_.loops[nloops:] for _, s_ in results) else None
+            if vals is None:
+                vals = mkphi([r for r, _ in results])
+                if vals[0] == 'phi':
+                    self._phi_merges = getattr(self, '_phi_merges', 0) + 1
             s = self.merge([s for _, s in results], base_events)
             results = [(vals, s)]
         for r, s in results:
             s.env = dict(saved_env)
             self.emit(s, 'leave', call, fi.qualname, node=node)
         return results
+
+    @staticmethod
+    def _decision_value(items):
+        """value of a helper with several returning paths as a conditional expression over the tests that separate the paths: `if c: return a` / `return b`
+        is `a if c else b` (None when the paths are not separated by a decision tree of their guards)"""
+        vals = []
+        for _, v in items:
+            if v not in vals:
+                vals.append(v)
+        if len(vals) == 1:
+            return vals[0]
+        if any(not g for g, _ in items):
+            # an early-return chain: `if c1: return v1` ... `return vn` - every path but the last one returns under its own tests, the last one is what is left
+            if all(g for g, _ in items[:-1]) and not items[-1][0]:
+                val = items[-1][1]
+                for g, v in reversed(items[:-1]):
+                    lits = tuple(a if pol else ('unop', 'not', a) for a, pol in g)
+                    if len(lits) == 1 and g[0][1]:
+                        val = ('ifexp', lits[0], v, val)
+                    elif len(lits) == 1:
+                        val = ('ifexp', g[0][0], val, v)
+                    else:
+                        val = ('ifexp', ('boolop', 'and', lits), v, val)
+                return val
+            return None
+        atom = items[0][0][0][0]
+        if any(g[0][0] != atom for g, _ in items):
+            return None
+        yes = [(g[1:], v) for g, v in items if g[0][1] is True]
+        no = [(g[1:], v) for g, v in items if g[0][1] is False]
+        if not yes or not no:
+            return Evaluator._decision_value(yes or no)
+        a, b = Evaluator._decision_value(yes), Evaluator._decision_value(no)
+        if a is None or b is None:
+            return None
+        return ('ifexp', atom, a, b)
 
     def _const_default(self, node):
         try:
